@@ -43,16 +43,18 @@ type memRecord struct {
 }
 
 type memRig struct {
-	r       *crun
-	c       *cluster.Cluster
-	inj     *injector
-	rng     *core.Rng
-	idents  []*memIdent
-	byPub   map[crypto.Key]*memIdent
-	records []memRecord
-	applied []*injected // expected on every node
-	refused []*injected // must be applied nowhere
-	seq     int
+	r         *crun
+	c         *cluster.Cluster
+	inj       *injector
+	rng       *core.Rng
+	idents    []*memIdent
+	byPub     map[crypto.Key]*memIdent
+	records   []memRecord
+	applied   []*injected // expected on every node
+	refused   []*injected // must be applied nowhere
+	mintDay   uint64      // day of the latest finalized mint
+	ownAccept bool        // build acceptance transactions without the node's builder when it refuses
+	seq       int
 }
 
 func newMemRig(r *crun, seed uint64) (*memRig, error) {
@@ -150,7 +152,10 @@ func (m *memRig) certify(s *common.Snapshot, drop int, corrupt int) *crypto.Cosi
 // send delivers an injected snapshot to every genesis node.
 func (m *memRig) send(it *injected) {
 	for to := 0; to < m.c.Cfg.Nodes; to++ {
-		m.inj.deliver(m.c.External(), m.c.Nodes[to], it.tx, it.snap, time.Duration(to)*time.Millisecond)
+		for _, e := range it.extra {
+			m.c.Inject(m.c.External(), m.c.Nodes[to], buildTxBundle([]*common.VersionedTransaction{e}, true), time.Duration(to)*time.Millisecond)
+		}
+		m.inj.deliver(m.c.External(), m.c.Nodes[to], it.tx, it.snap, time.Duration(to)*time.Millisecond+time.Millisecond)
 	}
 }
 
@@ -370,6 +375,16 @@ func (m *memRig) pledge() bool {
 // acceptSnapshot builds the round-zero acceptance snapshot of the pledging node.
 func (m *memRig) acceptSnapshot(id *memIdent, ts uint64) (*injected, error) {
 	tx, err := m.ref().Node.SimBuildAccept(id.id, ts, true)
+	if err != nil && id.pledge != nil && m.ownAccept {
+		// the node's builder refuses (e.g. outside the window): the same
+		// transaction built by the simulator from the pledge
+		own := common.NewTransactionV5(common.XINAssetId)
+		own.AddInput(id.pledge.PayloadHash(), 0)
+		own.AddOutputWithType(common.OutputTypeNodeAccept, nil, common.Script{}, id.pledge.Outputs[0].Amount, []byte{})
+		own.Extra = id.pledge.Extra
+		own.References = m.lastConsensusTx()
+		tx, err = own.AsVersioned(), nil
+	}
 	if err != nil {
 		return nil, err
 	}
@@ -436,5 +451,169 @@ func (m *memRig) remove() bool {
 	}
 	victim.state, victim.since = common.NodeStateRemoved, it.snap.Timestamp
 	m.record("remove", victim, it)
+	return true
+}
+
+// refuseCandidate injects a snapshot that the rules forbid and reports where
+// (if anywhere) it was nevertheless stored.
+func (m *memRig) refuseCandidate(it *injected, wait time.Duration) int {
+	if it == nil {
+		return -2
+	}
+	m.send(it)
+	m.c.Run(m.c.Q.Now + wait)
+	m.refused = append(m.refused, it)
+	return m.anywhere(it)
+}
+
+// multi builds a validly certified snapshot holding several transactions on
+// the chain of owner (not adopted by the chain model).
+func (m *memRig) multi(owner crypto.Hash, txs []*common.VersionedTransaction, ts uint64) *injected {
+	ch := m.inj.chainFor(owner)
+	if ch == nil {
+		return nil
+	}
+	old := ts != 0
+	if ts == 0 {
+		ts = m.now()
+		if ts <= ch.lastTime {
+			ts = ch.lastTime + 1
+		}
+	}
+	number, refs := ch.number, ch.refs
+	if len(ch.snaps) > 0 {
+		_, final := roundHashRef(ch.id, ch.number, ch.snaps)
+		ext := m.inj.pickExternal(ch)
+		if old {
+			ext = m.externalBefore(ch, ts)
+		}
+		if ext == nil {
+			return nil
+		}
+		number, refs = ch.number+1, &common.RoundLink{Self: final, External: ext.hash}
+	}
+	s := &common.Snapshot{Version: common.SnapshotVersionCommonEncoding, NodeId: owner, RoundNumber: number, References: refs.Copy(), Timestamp: ts}
+	hs := make([]crypto.Hash, len(txs))
+	for i, t := range txs {
+		hs[i] = t.PayloadHash()
+	}
+	sort.Slice(hs, func(i, j int) bool { return string(hs[i][:]) < string(hs[j][:]) })
+	for _, h := range hs {
+		s.AddTransaction(h)
+	}
+	s.Hash = s.PayloadHash()
+	s.Signature = m.certify(s, 0, -1)
+	if s.Signature == nil {
+		return nil
+	}
+	return &injected{snap: s, tx: txs[0], extra: txs[1:], chain: ch, applied: map[int]bool{}}
+}
+
+// modelAccepted lists the identities that are accepted at instant ts
+// according to the rig's own record of finalized operations (a record is
+// visible strictly after its timestamp), oldest first.
+func (m *memRig) modelAccepted(ts uint64) []*memIdent {
+	type st struct {
+		state string
+		since uint64
+	}
+	cur := map[int]st{}
+	epoch := uint64(m.c.Epoch.UnixNano())
+	for i := 0; i < m.c.Cfg.Nodes; i++ {
+		if epoch < ts {
+			cur[i] = st{common.NodeStateAccepted, epoch}
+		}
+	}
+	for _, rec := range m.records {
+		if rec.ts >= ts {
+			continue
+		}
+		switch rec.kind {
+		case "pledge":
+			cur[rec.who] = st{common.NodeStatePledging, rec.ts}
+		case "accept":
+			cur[rec.who] = st{common.NodeStateAccepted, rec.ts}
+		case "remove":
+			cur[rec.who] = st{common.NodeStateRemoved, rec.ts}
+		}
+	}
+	var out []*memIdent
+	since := map[int]uint64{}
+	for i, s := range cur {
+		if s.state == common.NodeStateAccepted {
+			out = append(out, m.idents[i])
+			since[i] = s.since
+		}
+	}
+	sort.Slice(out, func(a, b int) bool {
+		if since[out[a].idx] != since[out[b].idx] {
+			return since[out[a].idx] < since[out[b].idx]
+		}
+		return out[a].id.String() < out[b].id.String()
+	})
+	return out
+}
+
+// externalBefore picks an external reference for a snapshot of ch stamped at
+// an instant in the past: the newest closed round of another chain that
+// started no later than ts and is not older than what ch already links to.
+func (m *memRig) externalBefore(ch *injChain, ts uint64) *extRef {
+	ref := m.ref()
+	var cands []*extRef
+	for _, o := range m.inj.chains {
+		if o.id == ch.id || o.number == 0 {
+			continue
+		}
+		for r := o.number - 1; r >= ch.links[o.id]; r-- {
+			snaps, err := ref.Store.ReadSnapshotsForNodeRound(o.id, r)
+			if err == nil && len(snaps) > 0 {
+				if start, h := roundHashRef(o.id, r, snaps); start <= ts {
+					cands = append(cands, &extRef{o.id, r, h})
+					break
+				}
+			}
+			if r == 0 {
+				break
+			}
+		}
+	}
+	if len(cands) == 0 {
+		return nil
+	}
+	return cands[m.rng.IntN(len(cands))]
+}
+
+func (m *memRig) identOf(id crypto.Hash) *memIdent {
+	for _, x := range m.idents {
+		if x.id == id {
+			return x
+		}
+	}
+	return nil
+}
+
+func (m *memRig) dayOf(ts uint64) uint64 {
+	return (ts - uint64(m.c.Epoch.UnixNano())) / uint64(24*time.Hour)
+}
+
+// mint performs the valid universal mint of the current day (possible only
+// after the legacy period, i.e. for histories that start late enough).
+func (m *memRig) mint() bool {
+	m.jumpTo(config.KernelMintTimeBegin+m.rng.IntN(config.KernelMintTimeEnd-config.KernelMintTimeBegin+1), 0)
+	ts := m.now()
+	ref := m.ref()
+	tx := ref.Node.SimBuildMint(ts)
+	if tx == nil {
+		m.r.out.Probes["mint_not_possible"]++
+		return false
+	}
+	elected := ref.Node.SimElect(common.TransactionTypeMint, ts)
+	it := m.placeOn(elected, tx, true)
+	if it == nil || !m.settle(it, 20*time.Second) {
+		m.r.out.Probes["valid_mint_not_applied"]++
+		return false
+	}
+	m.mintDay = m.dayOf(it.snap.Timestamp)
+	m.record("mint", m.identOf(elected), it)
 	return true
 }
